@@ -195,10 +195,14 @@ class Env(object):
         if rid in self.synth:
             s = self.synth[rid]
             ann = {"topology": s.get("topology", "circular"), "molecule_type": "DNA"}
+            rec_id = s.get("rec_id", rid)
+            seq_obj = Seq(s["seq"])
+            if s.get("share_seq") and not fresh:
+                seq_obj = self.rec(s["share_seq"]).seq   # the twin was built from the other record's Seq object
             if s.get("topology", "circular") == "circular":
-                r = CircularRecord(Seq(s["seq"]), id=rid, name=rid, annotations=ann)
+                r = CircularRecord(seq_obj, id=rec_id, name=rec_id, annotations=ann)
             else:
-                r = SeqRecord(Seq(s["seq"]), id=rid, name=rid, annotations=ann)
+                r = SeqRecord(seq_obj, id=rec_id, name=rec_id, annotations=ann)
         elif "@" in rid:
             base, k = rid.rsplit("@", 1)
             src = W["records"][base]
@@ -300,11 +304,16 @@ def _oracle_child(case_cat, defines, query):
 def oracle(case, defines, query):
     synth = {r["id"]: r for r in case["catalogue"].get("synthetic", [])}
     rid = query[2] if len(query) > 2 and query[0] != "structure" else None
-    key = kernel.canon([defines, query, synth.get(rid)])
+    need = []
+    if rid in synth:
+        need = [synth[rid]]
+        if synth[rid].get("share_seq") in synth:
+            need.append(synth[synth[rid]["share_seq"]])   # the record whose Seq object this twin shares
+    key = kernel.canon([defines, query, need])
     memo = W["oracle_memo"]
     if key in memo:
         return memo[key], False
-    cat = {"synthetic": [synth[rid]]} if rid in synth else {}
+    cat = {"synthetic": need} if need else {}
     out = kernel.fork_call(_oracle_child, (cat, defines, query), timeout=30, what="oracle")
     if len(memo) < 200000:
         memo[key] = out
@@ -666,7 +675,10 @@ def gen_case(spec):
                 if g.random() < 0.25:
                     # a twin with the same letters and the other topology (the same plasmid exported as a linear file)
                     tid = "syn:%d" % len(synthetic)
-                    synthetic.append({"id": tid, "seq": seq, "topology": "linear" if topo == "circular" else "circular", "variant": variant + "-twin"})
+                    twin = {"id": tid, "seq": seq, "topology": "linear" if topo == "circular" else "circular", "variant": variant + "-twin", "rec_id": sid}
+                    if g.random() < 0.5:
+                        twin["share_seq"] = sid
+                    synthetic.append(twin)
                     recs.append(tid)
                     if g.random() < 0.7:
                         motifs.append([("new", c, sid), ("call", "is_valid"), ("new", c, tid), ("call", "is_valid"), ("call", "overhang_start")])
